@@ -407,7 +407,7 @@ func malformedIndexCases(c *Ctx, r *RNG, codec uint64, rs []idxRec, qs []cid.Cid
 	n := 0
 	// every truncation of a small index, sampled for larger ones
 	for k := 0; k < len(good); k++ {
-		if len(good) > 160 && !c.Thorough && r.Intn(len(good)/80+1) != 0 {
+		if len(good) > 60 && !c.Thorough && r.Intn(len(good)/30+1) != 0 {
 			continue
 		}
 		emitIdxRead(c, r, good[:k], qs, "truncated")
@@ -477,7 +477,7 @@ func malformedIndexCases(c *Ctx, r *RNG, codec uint64, rs []idxRec, qs []cid.Cid
 
 func init() {
 	register("c11", func(c *Ctx) {
-		nSets := 150 * c.Scale
+		nSets := 400 * c.Scale
 		for a := 0; a < nSets; a++ {
 			r := c.R.Fork()
 			n := pick(r, []int{0, 1, 2, 3, 3, 4, 5, 6, 8, 12, 20})
